@@ -1,0 +1,225 @@
+//go:build verif
+
+package pop3
+
+import (
+	"io"
+
+	"github.com/inbucket/inbucket/v3/pkg/storage"
+)
+
+var _ storage.Store
+var _ io.Writer
+
+// ---------------------------------------------------------------------------------------------
+// C13: a POP3 session is a stable snapshot whose deletions commit only on QUIT.
+
+// spec_cnt(q, lo, n): how many of the n flags q[lo..lo+n) are set.
+//@ pred spec_cnt(q vcSeq[bool], lo int, n int) int = vcIte(n <= 0, 0, spec_cnt(q, lo, n-1) + vcIte(vcSeqAt(q, lo+n-1), 1, 0))
+
+// Clearing one set flag lowers the count by one (if the flag lies inside the counted range).
+// @ lemma lemma_cnt_clear
+// @   requires lo <= k && vcSeqAt(q1, k) && !vcSeqAt(q2, k)
+// @   requires forall j int :: { vcSeqAt(q2, j) } j != k ==> vcSeqAt(q1, j) == vcSeqAt(q2, j)
+// @   ensures spec_cnt(q2, lo, n) == spec_cnt(q1, lo, n) - vcIte(k < lo+n, 1, 0)
+// @   decreases n
+// @   serves C13
+func lemma_cnt_clear(q1 vcSeq[bool], q2 vcSeq[bool], lo int, k int, n int) {
+	if n <= 0 {
+		return
+	}
+	lemma_cnt_clear(q1, q2, lo, k, n-1)
+}
+
+// One unfolding step of the count (by definition; stated as a lemma so that solvers need not unfold
+// the recursive definition themselves).
+// @ lemma lemma_cnt_step
+// @   requires n >= 0
+// @   ensures spec_cnt(q, lo, n+1) == spec_cnt(q, lo, n) + vcIte(vcSeqAt(q, lo+n), 1, 0)
+// @   serves C13
+func lemma_cnt_step(q vcSeq[bool], lo int, n int) {}
+
+// If every flag in the range is set the count is the length of the range.
+// @ lemma lemma_cnt_all
+// @   requires n >= 0
+// @   requires forall j int :: { vcSeqAt(q, j) } lo <= j && j < lo+n ==> vcSeqAt(q, j)
+// @   ensures spec_cnt(q, lo, n) == n
+// @   decreases n
+// @   serves C13
+func lemma_cnt_all(q vcSeq[bool], lo int, n int) {
+	if n <= 0 {
+		return
+	}
+	lemma_cnt_all(q, lo, n-1)
+}
+
+// The count never exceeds the range.
+// @ lemma lemma_cnt_bounds
+// @   requires n >= 0
+// @   ensures 0 <= spec_cnt(q, lo, n) && spec_cnt(q, lo, n) <= n
+// @   decreases n
+// @   serves C13
+func lemma_cnt_bounds(q vcSeq[bool], lo int, n int) {
+	if n <= 0 {
+		return
+	}
+	lemma_cnt_bounds(q, lo, n-1)
+}
+
+// A cleared flag at position k < n makes the number of cleared flags before k smaller than before n.
+// @ lemma lemma_cntDel_lt
+// @   requires 0 <= k && k < n && !vcSeqAt(q, lo+k)
+// @   ensures k - spec_cnt(q, lo, k) < n - spec_cnt(q, lo, n)
+// @   decreases n
+// @   serves C13
+func lemma_cntDel_lt(q vcSeq[bool], lo int, k int, n int) {
+	if n-1 <= k {
+		return
+	}
+	lemma_cntDel_lt(q, lo, k, n-1)
+}
+
+//@ pred spec_allSet(q vcSeq[bool], lo int, n int) bool = forall j int :: { vcSeqAt(q, j) } lo <= j && j < lo+n ==> vcSeqAt(q, j)
+
+//@ pred spec_valid(s *Session) bool = s.Server != nil && s.conn != nil && s.store != nil
+
+// I_pop: one retain flag per snapshot message, msgCount is the number of messages not marked deleted.
+//@ pred I_pop(s *Session) bool = spec_valid(s) && AUTHORIZATION <= s.state && s.state <= QUIT &&
+//@     len(s.retain) == len(s.messages) &&
+//@     s.msgCount == spec_cnt(vcElemsOf(s.retain), vcOff(s.retain), len(s.retain)) &&
+//@     (forall k int :: { s.messages[k] } 0 <= k && k < len(s.messages) ==> s.messages[k] != nil)
+
+//@ func (*Session).enterState
+//@   inline
+//@ func (*Session).nextDeadline
+//@   inline
+//@ func (*Session).ooSeq
+//@   inline
+//@ func (*Session).reset
+//@   inline
+//@ func (*Session).readLine
+//@   inline
+
+//@ func (*Session).send
+//@   requires s.conn != nil && s.Server != nil
+//@   modifies s.sendError, ghost_nwrites(s.conn)
+//@   ensures old(s.sendError) != nil ==> s.sendError != nil
+//@   ensures (ghost_nwrites(s.conn) == old(ghost_nwrites(s.conn)) + 1 && s.sendError == old(s.sendError)) || s.sendError != nil
+//@   serves C13
+
+//@ func (*Session).parseCmd
+//@   serves C13
+
+// retainAll: every message of the snapshot is retained again.
+//@ func (*Session).retainAll
+//@   modifies s.retain, s.msgCount
+//@   ensures len(s.retain) == len(s.messages) && vcFresh(s.retain) && s.msgCount == len(s.messages)
+//@   ensures spec_allSet(vcElemsOf(s.retain), vcOff(s.retain), len(s.retain))
+//@   ensures s.msgCount == spec_cnt(vcElemsOf(s.retain), vcOff(s.retain), len(s.retain))
+//@   loop 1: invariant 0 <= ridx && ridx <= len(s.retain) && len(s.retain) == len(s.messages) && vcFresh(s.retain)
+//@   loop 1: invariant spec_allSet(vcElemsOf(s.retain), vcOff(s.retain), ridx)
+//@   loop 1: decreases len(s.retain) - ridx
+//@   uses lemma_cnt_all
+//@   serves C13
+
+// loadMailbox is the only place the snapshot is taken.
+//@ func (*Session).loadMailbox
+//@   requires spec_valid(s)
+//@   modifies s.logger, s.messages, s.retain, s.msgCount
+//@   ensures len(s.retain) == len(s.messages) && s.msgCount == len(s.messages)
+//@   ensures s.msgCount == spec_cnt(vcElemsOf(s.retain), vcOff(s.retain), len(s.retain))
+//@   ensures forall k int :: { s.messages[k] } 0 <= k && k < len(s.messages) ==> s.messages[k] != nil
+//@   serves C13
+
+// processDeletes: RemoveMessage is called exactly for the messages marked deleted, in order, with
+// the session's mailbox and the message's own id.
+//@ pred spec_cntDel(q vcSeq[bool], lo int, n int) int = n - spec_cnt(q, lo, n)
+//@ func (*Session).processDeletes
+//@   requires I_pop(s)
+//@   modifies ghost_nremoved(s.store), ghost_rmBoxes(s.store), ghost_rmIDs(s.store)
+//@   ensures storage.Ghost_nremoved(s.store) == old(storage.Ghost_nremoved(s.store)) + spec_cntDel(vcElemsOf(s.retain), vcOff(s.retain), len(s.retain))
+//@   ensures forall k int :: { s.retain[k] } 0 <= k && k < len(s.retain) && !s.retain[k] ==>
+//@      storage.Ghost_rmIDAt(s.store, old(storage.Ghost_nremoved(s.store)) + spec_cntDel(vcElemsOf(s.retain), vcOff(s.retain), k)) == s.messages[k].ID() &&
+//@      storage.Ghost_rmBoxAt(s.store, old(storage.Ghost_nremoved(s.store)) + spec_cntDel(vcElemsOf(s.retain), vcOff(s.retain), k)) == s.user
+//@   loop 1: invariant 0 <= ridx && ridx <= len(s.messages)
+//@   loop 1: invariant storage.Ghost_nremoved(s.store) == old(storage.Ghost_nremoved(s.store)) + spec_cntDel(vcElemsOf(s.retain), vcOff(s.retain), ridx)
+//@   loop 1: invariant forall k int :: { s.retain[k] } 0 <= k && k < ridx && !s.retain[k] ==>
+//@      storage.Ghost_rmIDAt(s.store, old(storage.Ghost_nremoved(s.store)) + spec_cntDel(vcElemsOf(s.retain), vcOff(s.retain), k)) == s.messages[k].ID()
+//@   loop 1: invariant forall k int :: { s.retain[k] } 0 <= k && k < ridx && !s.retain[k] ==>
+//@      storage.Ghost_rmBoxAt(s.store, old(storage.Ghost_nremoved(s.store)) + spec_cntDel(vcElemsOf(s.retain), vcOff(s.retain), k)) == s.user
+//@   loop 1: invariant forall k int :: { s.retain[k] } 0 <= k && k < ridx && !s.retain[k] ==>
+//@      spec_cntDel(vcElemsOf(s.retain), vcOff(s.retain), k) < spec_cntDel(vcElemsOf(s.retain), vcOff(s.retain), ridx)
+//@   loop 1: decreases len(s.messages) - ridx
+//@   uses lemma_cnt_bounds lemma_cntDel_lt
+//@   serves C13
+
+// Ghost: the number of successful writes to a connection (owned by the engine's model of fmt.Fprint).
+func ghost_nwrites(w io.Writer) int { panic("ghost") }
+
+// sendMessage / sendMessageTop: stream a message; they change nothing but the send error and the
+// write counter.  (Content fidelity is C02.)
+//@ func (*Session).sendMessage
+//@   requires spec_valid(s) && msg != nil
+//@   modifies s.sendError, ghost_nwrites(s.conn)
+//@   loop 1: invariant true
+//@   serves C13 C02
+
+//@ func (*Session).sendMessageTop
+//@   requires spec_valid(s) && msg != nil
+//@   modifies s.sendError, ghost_nwrites(s.conn)
+//@   loop 1: invariant true
+//@   serves C13 C02
+
+// AUTHORIZATION: the snapshot is taken exactly here (PASS / APOP), nothing is removed.
+//@ func (*Session).authorizationHandler
+//@   requires I_pop(s) && s.state == AUTHORIZATION
+//@   modifies s.state, s.user, s.conn, s.reader, s.Server.tlsState, s.logger, s.messages, s.retain, s.msgCount, s.sendError, ghost_nwrites(s.conn)
+//@   ensures I_pop(s)
+//@   ensures[noRemoval] storage.Ghost_nremoved(s.store) == old(storage.Ghost_nremoved(s.store))
+//@   ensures[login] s.state == TRANSACTION ==> (cmd == "PASS" || cmd == "APOP") && s.user != "" || s.state == TRANSACTION && cmd == "APOP"
+//@   serves C13
+
+// TRANSACTION.  The snapshot (messages) is never reassigned; DELE clears exactly one set flag;
+// RSET sets all; only QUIT removes anything, and it removes exactly the marked messages.
+//@ func (*Session).transactionHandler
+//@   requires I_pop(s) && s.state == TRANSACTION
+//@   modifies s.state, s.retain, elems(s.retain), s.msgCount, s.sendError, ghost_nwrites(s.conn), ghost_nremoved(s.store), ghost_rmBoxes(s.store), ghost_rmIDs(s.store)
+//@   ensures I_pop(s) && (s.state == TRANSACTION || s.state == QUIT)
+//@   ensures[quitOnly] storage.Ghost_nremoved(s.store) != old(storage.Ghost_nremoved(s.store)) ==> cmd == "QUIT" && s.state == QUIT
+//@   ensures[quitRemovesMarked] cmd == "QUIT" ==> s.state == QUIT &&
+//@      storage.Ghost_nremoved(s.store) == old(storage.Ghost_nremoved(s.store)) + spec_cntDel(vcElemsOf(s.retain), vcOff(s.retain), len(s.retain))
+//@   ensures[flagsStable] cmd != "DELE" && cmd != "RSET" ==> vcSameSlice(s.retain, old(s.retain)) &&
+//@      forall k int :: { s.retain[k] } 0 <= k && k < len(s.retain) ==> s.retain[k] == old(s.retain[k])
+//@   ensures[dele] cmd == "DELE" ==> vcSameSlice(s.retain, old(s.retain)) &&
+//@      forall k int :: { s.retain[k] } 0 <= k && k < len(s.retain) && s.retain[k] ==> old(s.retain[k])
+//@   ensures[rset] cmd == "RSET" ==> spec_allSet(vcElemsOf(s.retain), vcOff(s.retain), len(s.retain))
+//@   ensures[listCount] cmd == "LIST" && len(args) == 0 && s.sendError == nil ==> ghost_nwrites(s.conn) == old(ghost_nwrites(s.conn)) + 2 + s.msgCount
+//@   ensures[uidlCount] cmd == "UIDL" && len(args) == 0 && s.sendError == nil ==> ghost_nwrites(s.conn) == old(ghost_nwrites(s.conn)) + 2 + s.msgCount
+//@   loop 1: invariant 0 <= ridx && ridx <= len(s.messages) && count == spec_cnt(vcElemsOf(s.retain), vcOff(s.retain), ridx)
+//@   loop 1: after count == s.msgCount
+//@   loop 1: decreases len(s.messages) - ridx
+//@   loop 2: invariant 0 <= ridx && ridx <= len(s.messages)
+//@   loop 2: invariant s.sendError == nil ==> ghost_nwrites(s.conn) == old(ghost_nwrites(s.conn)) + 1 + spec_cnt(vcElemsOf(s.retain), vcOff(s.retain), ridx)
+//@   loop 2: decreases len(s.messages) - ridx
+//@   loop 3: invariant 0 <= ridx && ridx <= len(s.messages)
+//@   loop 3: invariant s.sendError == nil ==> ghost_nwrites(s.conn) == old(ghost_nwrites(s.conn)) + 1 + spec_cnt(vcElemsOf(s.retain), vcOff(s.retain), ridx)
+//@   loop 3: decreases len(s.messages) - ridx
+//@   uses lemma_cnt_clear lemma_cnt_bounds lemma_cnt_step
+//@   serves C13
+
+// NewSession: assumed initial state (its body only copies its arguments; bufio / net helpers).
+//@ func NewSession
+//@   requires server != nil && conn != nil
+//@   ensures ret != nil && vcFresh(ret) && ret.Server == server && ret.state == AUTHORIZATION && ret.conn == conn &&
+//@      len(ret.messages) == 0 && len(ret.retain) == 0 && ret.msgCount == 0 && ret.sendError == nil && ret.user == ""
+//@   serves C13
+
+// The command loop preserves I_pop; the store is only reached through the two handlers, so a
+// connection that ends in any way other than QUIT in TRANSACTION state removes nothing.
+//@ func (*Server).startSession
+//@   requires s.store != nil && s.wg != nil && conn != nil
+//@   modifies *
+//@   loop 1: invariant ssn != nil && ssn.Server == s && I_pop(ssn)
+//@   loop 1: invariant[noQuitNoRemoval] ssn.state != QUIT ==> storage.Ghost_nremoved(s.store) == old(storage.Ghost_nremoved(s.store))
+//@   loop 1: after[noQuitNoRemoval] ssn.state != QUIT ==> storage.Ghost_nremoved(s.store) == old(storage.Ghost_nremoved(s.store))
+//@   serves C13
